@@ -272,6 +272,8 @@ def run(S, tier, rep):
                        "periodic images, symmetric, independent of earlier solves; rounding behaviour is not analysed (remainder)")
     for dim in (2, 3):
         check_dim(S, rep, dim)
+    from .common import memo_key_rule
+    memo_key_rule(S, rep, "C03")
     rep.require_min("C03.a", 8)
     rep.require_min("C03.b", 10)
     rep.require_min("C03.c", 10)
